@@ -16,12 +16,10 @@ structure Prims where
   /-- one-time authenticator: 32-byte key, message ↦ tag -/
   mac : (otk msg : List UInt8) → List UInt8
 
-/-- XOR `m` with a key stream; bytes beyond the end of the key stream are left alone, so the
-result always has the length of `m`. -/
-def xorBytes : List UInt8 → List UInt8 → List UInt8
-  | [], _ => []
-  | a :: m, [] => a :: xorBytes m []
-  | a :: m, k :: ks => (a ^^^ k) :: xorBytes m ks
+/-- XOR `m` with a key stream; bytes beyond the end of the key stream are left alone (the key
+stream is padded with zeros), so the result always has the length of `m`. -/
+def xorBytes (m ks : List UInt8) : List UInt8 :=
+  List.zipWith (· ^^^ ·) m (ks ++ List.replicate (m.length - ks.length) 0)
 
 def pad16 (n : Nat) : List UInt8 := List.replicate ((16 - n % 16) % 16) 0
 
